@@ -54,38 +54,53 @@ def startsWithSign (s : String) : Bool :=
 
 def parenIf (b : Bool) (s : String) : String := if b then "(" ++ s ++ ")" else s
 
+/-- `write_ident`: a name is written as is when the query lexer reads it back as that one
+identifier (`plain`), in double quotes with `"` and `\` escaped otherwise -/
+def identText (plain : String → Bool) (name : String) : String :=
+  if plain name then name
+  else "\"" ++ String.ofList (name.toList.flatMap fun c => if c == '"' || c == '\\' then ['\\', c] else [c]) ++ "\""
+
+/-- a quote string with `'`, line break and tab written as the escapes the lexer accepts -/
+def quoteText (s : String) : String :=
+  "'" ++ String.ofList (s.toList.flatMap fun c =>
+    if c == '\'' then ['\\', '\''] else if c == '\n' then ['\\', 'n'] else if c == '\t' then ['\\', 't'] else [c]) ++ "'"
+
+/-- the lexer's verdict used by `write_ident`: the text is exactly one identifier token, itself -/
+def plainIdent (cc : Lex.CharClass) (name : String) : Bool :=
+  Lex.lex cc name.toList == [.ident name, .eof]
+
 mutual
 /-- `recurse(expr, fmt, prec)` -/
-def display (sz : Nat → Nat → Nat) : Expr → Prec → String
-  | .unit name, _ => name
-  | .quote s, _ => "'" ++ s ++ "'"
+def display (sz : Nat → Nat → Nat) (plain : String → Bool) : Expr → Prec → String
+  | .unit name, _ => identText plain name
+  | .quote s, _ => quoteText s
   | .const v, _ => constText sz v
   | .date _, _ => "NYI: date expr Display"
   | .binop op l r, prec =>
-    parenIf (prec < precOf op) (display sz l (precNext op) ++ symbol op ++ display sz r (precRight op))
-  | .unary .positive e, _ => "+" ++ display sz e .plus
-  | .unary .negative e, _ => "-" ++ display sz e .plus
-  | .unary (.degree d) e, prec => parenIf (prec < .mul) (display sz e .mul ++ " " ++ d.display)
-  | .mul es, prec => parenIf (prec < .mul) (displayMul sz es true)
-  | .call f args, _ => f.name ++ "(" ++ displayArgs sz args true ++ ")"
-  | .ofProp p e, prec => parenIf (prec < .add) (p ++ " of " ++ display sz e .mul)
+    parenIf (prec < precOf op) (display sz plain l (precNext op) ++ symbol op ++ display sz plain r (precRight op))
+  | .unary .positive e, _ => "+" ++ display sz plain e .plus
+  | .unary .negative e, _ => "-" ++ display sz plain e .plus
+  | .unary (.degree d) e, prec => parenIf (prec < .mul) (display sz plain e .mul ++ " " ++ d.display)
+  | .mul es, prec => parenIf (prec < .mul) (displayMul sz plain es true)
+  | .call f args, _ => f.name ++ "(" ++ displayArgs sz plain args true ++ ")"
+  | .ofProp p e, prec => parenIf (prec < .add) (identText plain p ++ " of " ++ display sz plain e .mul)
   | .error msg, _ => "<error: " ++ msg ++ ">"
 
 /-- factors of a product, space separated; a factor that is not the first and whose text
 starts with a sign is parenthesised (otherwise `a -b` would read as a subtraction) -/
-def displayMul (sz : Nat → Nat → Nat) : List Expr → Bool → String
+def displayMul (sz : Nat → Nat → Nat) (plain : String → Bool) : List Expr → Bool → String
   | [], _ => ""
   | e :: es, first =>
-    let t := display sz e .pow
+    let t := display sz plain e .pow
     let t := if !first && startsWithSign t then "(" ++ t ++ ")" else t
-    (if first then t else " " ++ t) ++ displayMul sz es false
+    (if first then t else " " ++ t) ++ displayMul sz plain es false
 
-def displayArgs (sz : Nat → Nat → Nat) : List Expr → Bool → String
+def displayArgs (sz : Nat → Nat → Nat) (plain : String → Bool) : List Expr → Bool → String
   | [], _ => ""
-  | e :: es, first => (if first then "" else ", ") ++ display sz e .equals ++ displayArgs sz es false
+  | e :: es, first => (if first then "" else ", ") ++ display sz plain e .equals ++ displayArgs sz plain es false
 end
 
 /-- `impl Display for Expr` -/
-def render (sz : Nat → Nat → Nat) (e : Expr) : String := display sz e .equals
+def render (sz : Nat → Nat → Nat) (cc : Lex.CharClass) (e : Expr) : String := display sz (plainIdent cc) e .equals
 
 end Rink.Print
